@@ -79,6 +79,8 @@ inductive Op where
   | reload
   | sub (i : Nat)
   | unsub (i : Nat)
+  /-- an auto-destroy starts (`true`) / ends by closing instead (`false`) draining the in-flight requests -/
+  | drain (on : Bool)
   deriving DecidableEq, Repr
 
 structure Cfg where
@@ -86,6 +88,9 @@ structure Cfg where
   resetsChangedFlags : Bool
   /-- `OldTreasure` is the live object fetched from the key beacon (= the new record) -/
   oldIsLive : Bool
+  /-- event sending stays on while an auto-destroy drains the in-flight requests (it is switched off only when the
+      swamp is really destroyed) -/
+  sendsDuringDrain : Bool := true
   deriving DecidableEq, Repr
 
 inductive Status where
@@ -95,6 +100,7 @@ inductive Status where
 structure St where
   recs : String → Option Rec
   subs : List Nat
+  draining : Bool := false
 
 def St.init : St := { recs := fun _ => none, subs := [] }
 
@@ -121,7 +127,10 @@ def remove (s : St) (k : String) : St × Status × List Event :=
                [{ kind := .del, key := k, val := r.val, old := none }])
 
 def stepM (cfg : Cfg) (s : St) : Op → St × Status × List Event
-  | .set k v => save cfg s k v
+  | .set k v =>
+    let r := save cfg s k v
+    -- Destroy has switched event sending off before its drain: the change is committed, its event is not sent
+    if s.draining && !cfg.sendsDuringDrain then (r.1, r.2.1, []) else r
   | .inc k n =>
     match s.recs k with
     | none => save cfg s k (.int n)
@@ -135,6 +144,7 @@ def stepM (cfg : Cfg) (s : St) : Op → St × Status × List Event
   | .reload => ({ s with recs := fun k => (s.recs k).map (fun r => { r with dirty := false }) }, .none, [])
   | .sub i => ({ s with subs := if s.subs.contains i then s.subs else s.subs ++ [i] }, .none, [])
   | .unsub i => ({ s with subs := s.subs.filter (· != i) }, .none, [])
+  | .drain b => ({ s with draining := b }, .none, [])
 
 /-- Spec: the committed state is a finite map; one event per create / real update / delete. -/
 structure Spec where
@@ -168,6 +178,7 @@ def stepS (s : Spec) : Op → Spec × List Event
   | .reload => (s, [])
   | .sub i => ({ s with subs := if s.subs.contains i then s.subs else s.subs ++ [i] }, [])
   | .unsub i => ({ s with subs := s.subs.filter (· != i) }, [])
+  | .drain _ => (s, [])
 
 /-- what subscriber `i` receives over a history: the events of every step during which it
     was subscribed (fan-out is synchronous, one callback invocation per subscriber per event) -/
